@@ -172,7 +172,17 @@ def check(ctx: Ctx) -> None:
     fn = M.func(ZC, 'get_shifted_root_seq')
     ctx.instance('C18.b', 'get_shifted_root_seq')
     asserts = [norm(n.test) for n in walk_no_nested(fn.node) if isinstance(n, ast.Assert)]
-    ok_a = any(a.replace(' ', '') in ('abs(n_cs)<denominator', 'denominator>abs(n_cs)') for a in asserts)
+    # the shift guard, decided for every order position of |n_cs| relative to 0 and the denominator (any spelling made of comparisons)
+    from ..astutil import expander as _exp18, order_truth_table
+    _ex18 = _exp18(fn)
+    pn = fn.params[1] if len(fn.params) > 1 else 'n_cs'
+    dn = fn.params[2] if len(fn.params) > 2 else 'denominator'
+    tabs = [order_truth_table(_ex18(n.test), 'abs(%s)' % pn, ['0', dn]) for n in walk_no_nested(fn.node) if isinstance(n, ast.Assert)
+            and any(norm(x) == 'abs(%s)' % pn for x in ast.walk(_ex18(n.test)))]
+    if not tabs or any(t_ is None for t_ in tabs):
+        ctx.error('C18.b: get_shifted_root_seq no longer guards |%s| with assertions made of comparisons with 0 and %s (cannot tell)' % (pn, dn))
+    acc = {k_: all(t_[k_] for t_ in tabs) for k_ in tabs[0]}
+    ok_a = acc['at 0'] and acc['between 0 and %s' % dn] and not acc['at %s' % dn] and not acc['above %s' % dn]
     from .. import terms as T
     loc = T.local_terms(M, fn)
     ok_p = 'alpha_m' in loc and loc['alpha_m'] == T.parse_spec('2 * pi * n_cs / denominator')
